@@ -1467,6 +1467,31 @@ class Fillna(Elemwise):
     _defaults = {"value": None}
     operation = M.fillna
 
+    def _simplify_up(self, parent, dependents):
+        value = self.operand("value")
+        if (
+            isinstance(parent, Projection)
+            and isinstance(value, dict)
+            and self.frame.ndim > 1
+        ):
+            # a per-column mapping has to follow the projection; for a single
+            # column it becomes the scalar of that column
+            columns = determine_column_projection(self, parent, dependents)
+            if isinstance(columns, list):
+                columns = [col for col in self.frame.columns if col in columns]
+                if columns == self.frame.columns:
+                    return
+                value = {k: v for k, v in value.items() if k in columns}
+                if not value:
+                    return type(parent)(self.frame, *parent.operands[1:])
+                return type(parent)(
+                    type(self)(self.frame[columns], value), *parent.operands[1:]
+                )
+            if columns not in value:
+                return type(parent)(self.frame, *parent.operands[1:])
+            return type(self)(self.frame[columns], value[columns])
+        return super()._simplify_up(parent, dependents)
+
 
 class Replace(Elemwise):
     _projection_passthrough = True
